@@ -6,6 +6,14 @@
 #                                            tree=pinned: the MODEL follows the pinned tree - replay of refutation witnesses)
 #     ops (args joined by "."; streams and session ids are small numbers):
 #       rp.S.N[.deny|.L<n>] rtmp publish (L<n>: n bytes of URL parameters)      rs.S.N[.deny]  rtmp play       ap.S.N[.deny] rtsp ANNOUNCE
+#       ap2.S.N.M[.deny] / ds2.S.N.M[.deny]  a further ANNOUNCE / DESCRIBE (new session M) on the command connection of session N
+#       rp2.S.N / rs2.S.N  a further publish / play command naming stream S on the connection of RTMP session N
+#       requests through the real HTTP API server (a numeric key is a = absent, z = null, q = a string, or an integer):
+#         hpull.S.T.R.A.M.FLAGS  start_relay_pull with pull_timeout_ms T, pull_retry_num R, auto_stop_pull_after_no_out_ms A, rtsp_mode M;
+#                                FLAGS - or letters r (rtsp:// url) u (no url key) n (no stream_name key); result <spull result>~T:R:A:M as the group took them
+#         hxpull.S|a   stop_relay_pull       hkick.S|a.NAME|a   kick_session
+#         hpp.S|a.N.P.T.F  start_rtp_pub with port P, timeout_ms T, is_tcp_flag F; result <code>~<timeout s>:<tcp> when accepted
+#         1002 = param missing: nothing was called
 #       ds.S.N[.deny]  rtsp DESCRIBE     pl.N           rtsp PLAY       fs.S.N[.deny] http-flv   ts.S.N[.deny] http-ts
 #       cp.S.N         customize pub     pp.S.N         start_rtp_pub   gone.N        connection ends / DelCustomizePubSession
 #       kick.S.<name>  kick_session      spull.S.R.A[.rtsp] start_relay_pull (retry R, auto-stop A ms; nK = -K; .rtsp: rtsp:// url)
@@ -29,7 +37,8 @@ ASSUMPTIONS = [
     "tick counts that are multiples of LogicCheckSessionAliveIntervalSec (120) are not generated (idle-session reaping is C16's)",
     "HLS subscribers are not modelled; the stub origin answers rtsp:// pulls over interleaved TCP only (RtspMode 0)",
     "no subscriber arrives after ServerManager.Dispose (the implementation panics on its nil subscriber maps)",
-    "StartRtpPub's Listen succeeds (port 0); http-api handler defaults are outside the model, the Ctrl* methods are called directly",
+    "StartRtpPub's Listen succeeds (port 0 / absent); the HTTP API is exercised for start_relay_pull, stop_relay_pull, kick_session and "
+    "start_rtp_pub (add_ip_blacklist and the stat pages are not); start_rtp_pub receive timeouts never expire in a generated history",
 ]
 FULL_OUTPUT = True
 TIMEOUT = 900
@@ -172,6 +181,17 @@ def rand_history(rng, n_ops, streams):
             deny = ".deny" if rng.random() < 0.1 else ""
             ops.append("%s.%d.%d%s" % (k, s, i, deny))
             live.append((i, k, s))
+        elif r < 0.46 and [x for x in live if x[1] in ("ap", "ds")]:
+            j, _, _ = rng.choice([x for x in live if x[1] in ("ap", "ds")])
+            k = rng.choice(["ap2", "ds2"])
+            i = nid()
+            ops.append("%s.%d.%d.%d%s" % (k, s, j, i, ".deny" if rng.random() < 0.15 else ""))
+            live.append((i, k[:2], s))
+        elif r < 0.48 and [x for x in live if x[1] in ("rp", "rs")]:
+            x = rng.choice([x for x in live if x[1] in ("rp", "rs")])
+            ops.append("%s.%d.%d" % (rng.choice(["rp2", "rs2"]), s, x[0]))
+            if rng.random() < 0.8:
+                live.remove(x)
         elif r < 0.58 and live:
             i, k, st = rng.choice(live)
             if k == "pp":
@@ -210,7 +230,59 @@ def rand_history(rng, n_ops, streams):
     return ops
 
 
+def gen_rtsp_conn():
+    # several commands on ONE rtsp command connection: a second ANNOUNCE / DESCRIBE (same or another stream name, also
+    # refused by authentication) after an ANNOUNCE, a DESCRIBE, a DESCRIBE + PLAY; then later inputs, the end of the
+    # connection, ticks: whatever the connection carried must have departed
+    firsts = {"ap": ["ap.1.1"], "ds": ["ds.1.1"], "dspl": ["ds.1.1", "pl.1"], "apbusy": ["rp.1.5", "ap.1.1"], "dsin": ["rp.1.5", "ds.1.1", "pl.1"]}
+    seconds = ["ap2.1.1.2", "ap2.2.1.2", "ds2.1.1.2", "ds2.2.1.2", "ap2.1.1.2.deny", "ds2.2.1.2.deny", "ap2.2.1.2,ds2.2.1.3", "ds2.1.1.2,pl.2,ap2.1.2.3"]
+    for fk, first in firsts.items():
+        for sec in seconds:
+            for tail in (["rp.1.7", "rp.2.8", "gone.1", "gone.2", "tick.1", "rp.1.9", "gone.7", "gone.8", "gone.9", "gone.90", "tick.2", "tick.3"],
+                         ["tick.1", "gone.2", "gone.1", "tick.2", "ap.1.7", "ap.2.8", "kick.1.c7", "gone.7", "gone.8", "gone.90", "tick.3", "tick.4"]):
+                yield Case(line(["fs.1.90"] + first + sec.split(",") + tail), cls="rtspconn-" + fk)
+    # the connection was closed by lal (kick, dispose) before the second command
+    yield Case(line(["ap.1.1", "kick.1.c1", "ap2.1.1.2", "ds2.1.1.3", "pl.1", "gone.1", "tick.1"]), cls="rtspconn-kicked")
+    yield Case(line(["ds.1.1", "pl.1", "kick.1.c1", "ds2.1.1.2", "gone.1", "ap2.1.1.3", "tick.1"]), cls="rtspconn-kicked")
+    yield Case(line(["ap.1.1", "ds.1.2", "dispose", "ap2.2.1.3", "ds2.1.2.4", "gone.1", "gone.2"]), cls="rtspconn-kicked")
+    # names: the name of a command that never became a session stays taken; commands on non-rtsp / unknown connections
+    yield Case(line(["ap.1.1", "ap2.1.1.2", "rp.1.2", "ap.1.2", "fs.1.2", "ap2.1.9.3", "rp.1.4", "ap2.1.4.5", "ds2.1.4.6", "gone.4", "tick.1"]), cls="rtspconn-names")
+
+
+def gen_rtmp_conn():
+    # a further publish / play command on ONE rtmp connection (same or another stream name, the other stream empty or with
+    # its own publisher / subscriber): the command is refused, the connection ends, the session has left ITS stream
+    firsts = {"rp": ["rp.1.1"], "rs": ["rs.1.1"], "rpsub": ["rs.1.5", "rp.1.1"], "rpother": ["rp.2.6", "rs.2.5", "rp.1.1"], "rsother": ["rp.2.6", "rp.1.4", "rs.1.1"]}
+    seconds = ["rp2.1.1", "rp2.2.1", "rs2.1.1", "rs2.2.1", "rp2.3.1", "rs2.3.1"]
+    for fk, first in firsts.items():
+        for sec in seconds:
+            for tail in (["tick.1", "rp.1.7", "rs.1.8", "gone.7", "gone.1", "tick.2", "gone.8", "gone.90", "tick.3", "tick.4"],
+                         ["rp.1.7", "ap.2.8", "tick.1", "kick.1.c7", "gone.7", "gone.8", "gone.90", "gone.6", "gone.5", "gone.4", "tick.2", "tick.3"]):
+                yield Case(line(["fs.1.90"] + first + [sec] + tail), cls="rtmpconn-" + fk)
+    # commands on a connection that is refused / kicked / gone / not rtmp / unknown; twice
+    yield Case(line(["rp.1.1.deny", "rp2.2.1", "rp.1.2", "kick.1.c2", "rp2.2.2", "rs2.1.2", "gone.2", "rp2.1.2", "tick.1"]), cls="rtmpconn-closed")
+    yield Case(line(["rp.1.1", "rp.1.2", "rp2.2.2", "rp2.2.1", "rp2.2.1", "rs2.1.1", "tick.1", "rp.1.3", "gone.3", "tick.2"]), cls="rtmpconn-closed")
+    yield Case(line(["ap.1.1", "rp2.2.1", "fs.1.2", "rs2.1.2", "cp.2.3", "rp2.1.3", "rp2.1.9", "dispose", "rp2.2.1"]), cls="rtmpconn-closed")
+    yield Case(line(["rp.1.1", "rs.1.2", "dispose", "rp2.2.1", "rs2.2.2", "gone.1", "gone.2"]), cls="rtmpconn-closed")
+    # with a relay pull / push around
+    yield Case(line(["fs.1.90", "rp.1.1", "pushok.1.0", "rp2.2.1", "tick.1", "rp.1.2", "pushok.1.0", "gone.2", "tick.2"], "push=1"), cls="rtmpconn-relay")
+    yield Case(line(["rs.1.1", "spull.1.n1.n1", "psucc.1.0", "rs2.2.1", "tick.1", "rp.1.2", "pdone.1.0", "rp.1.3", "rp2.2.3", "tick.2", "psucc.1.0", "tick.3"]), cls="rtmpconn-relay")
+
+
+def gen_api_inputs():
+    # inputs and departures asked for through the real HTTP API server: start_rtp_pub over udp / tcp, kick_session of every kind
+    for tcp in ("a", "0", "1"):
+        yield Case(line(["fs.1.90", "hpp.1.1.a.a.%s" % tcp, "rp.1.2", "cp.1.3", "tick.1", "hkick.1.c1", "tick.2", "rp.1.4", "hpp.1.5.a.a.%s" % tcp, "hkick.1.c4", "gone.4",
+                         "hpp.1.6.a.0.%s" % tcp, "kick.1.c6", "gone.2", "gone.3", "tick.3"]), cls="api-rtppub")
+    yield Case(line(["hpp.1.1.a.a.1", "hpp.2.2.a.a.0", "ap.1.3", "ap.2.4", "hkick.2.c2", "hkick.1.c1", "ap.1.5", "ap.2.6", "hkick.1.c5", "hkick.2.c3", "gone.5", "gone.6", "gone.3", "gone.4", "tick.1", "tick.2"]), cls="api-rtppub")
+    yield Case(line(["fs.1.90", "rp.1.1", "rs.1.2", "ds.1.3", "pl.3", "ts.1.4", "hkick.1.c2", "hkick.1.c3", "hkick.1.c4", "hkick.1.c90", "hkick.a.c1", "hkick.1.a", "hkick.1.c1",
+                     "gone.1", "gone.2", "gone.3", "tick.1"]), cls="api-kick")
+
+
 def gen_cases(tier, rng):
+    yield from gen_rtmp_conn()
+    yield from gen_api_inputs()
+    yield from gen_rtsp_conn()
     yield from gen_pairs()
     yield from gen_foreign()
     yield from gen_api_points()
@@ -259,14 +331,94 @@ def occupants(g):
     return [x for x in g["slots"] if x != "-"] if g else []
 
 
+# ---- requests through the HTTP API: what the lal HTTP API document says about request keys ----
+API_DEFAULTS = {"pull_timeout_ms": 10000, "pull_retry_num": 0, "auto_stop_pull_after_no_out_ms": -1, "rtsp_mode": 0,
+                "port": 0, "timeout_ms": 60000, "is_tcp_flag": 0}
+
+
+def _ival(t):
+    return -int(t[1:]) if t.startswith("n") else int(t)
+
+
+def _tok(v):
+    return "n%d" % -v if v < 0 else "%d" % v
+
+
+def api_value(tok, key):
+    """the value a handler must use for a numeric key: the value given, whatever it is; the documented default when the key
+    is absent; Go's zero value for null; None when the request is malformed"""
+    if tok == "a":
+        return API_DEFAULTS[key]
+    if tok == "z":
+        return 0
+    if tok == "q":
+        return None
+    return _ival(tok)
+
+
+def api_layer(ops, out):
+    """-> (error or None, ops with every API request replaced by the direct call it must amount to, output without the
+    settings suffixes).  A request that must be answered with "param missing" becomes the no-op adv.0."""
+    segs = out.split(";")
+    if not any(o.startswith("h") for o in ops) or len([x for x in segs if not x.startswith("anomaly:")]) != len(ops):
+        return None, ops, out
+    new_ops, new_segs = [], []
+    for idx, (op, seg) in enumerate(zip(ops, segs)):
+        f = op.split(".")
+        where = "event %d (%s): " % (idx + 1, op)
+        res, _, rest = seg.partition("/")
+        nop, nres = op, res
+        missing = None
+        if f[0] == "hpull":
+            keys = ["pull_timeout_ms", "pull_retry_num", "auto_stop_pull_after_no_out_ms", "rtsp_mode"]
+            vals = [api_value(t, k) for t, k in zip(f[2:6], keys)]
+            missing = "u" in f[6] or None in vals
+            if not missing:
+                r0, _, sfx = res.partition("~")
+                want = ":".join(_tok(v) for v in vals)
+                if sfx != want:
+                    return (where + "start_relay_pull through the HTTP API: the group took %s = %s, the request says %s "
+                            "(a key that is present is used as given, an absent one gets the documented default)" % (":".join(keys), sfx or "nothing", want)), ops, out
+                nop = "spull.%s.%s.%s%s" % (f[1], _tok(vals[1]), _tok(vals[2]), ".rtsp" if "r" in f[6] else "")
+                nres = r0
+        elif f[0] == "hxpull":
+            missing = f[1] == "a"
+            nop = "xpull." + f[1]
+        elif f[0] == "hkick":
+            missing = f[1] == "a" or f[2] == "a"
+            nop = "kick.%s.%s" % (f[1], f[2])
+        elif f[0] == "hpp":
+            vals = [api_value(t, k) for t, k in zip(f[3:6], ["port", "timeout_ms", "is_tcp_flag"])]
+            missing = f[1] == "a" or None in vals
+            if not missing:
+                r0, _, sfx = res.partition("~")
+                nop, nres = "pp.%s.%s" % (f[1], f[2]), r0
+                if r0 == "0":
+                    want = "%d:%d" % (vals[1] // 1000, 1 if vals[2] != 0 else 0)
+                    if sfx != want:
+                        return (where + "start_rtp_pub through the HTTP API: the group took timeout s : tcp = %s, the request says %s" % (sfx or "nothing", want)), ops, out
+        if missing:
+            if res != "1002":
+                return (where + "answered %s to a request that lacks a required key or carries a malformed one, expected 1002 (param missing)" % res), ops, out
+            nop, nres = "adv.0", "-"
+        elif missing is not None and res == "1002":
+            return (where + "a complete request was answered with 1002 (param missing)"), ops, out
+        new_ops.append(nop)
+        new_segs.append(nres + "/" + rest)
+    return None, new_ops, ";".join(new_segs + segs[len(ops):])
+
+
 def oracle(c, out):
     if out.startswith(("panic@", "crash@", "timeout", "not-run")):
         return (False, "implementation crashed or hung: " + out[:80])
+    ops = c.line.split(" ")[2].split(",")
+    err, ops, out = api_layer(ops, out)
+    if err:
+        return (False, err)
     try:
         steps = parse_out(out)
     except ValueError as e:
         return (False, str(e))
-    ops = c.line.split(" ")[2].split(",")
     if len(steps) != len(ops):
         return (False, "the implementation answered %d of %d events" % (len(steps), len(ops)))
     kind = {}        # session name -> op kind
@@ -279,10 +431,19 @@ def oracle(c, out):
     must_finish = set()
     prev = {}
     last_media = {}  # name -> (result, subscriber set at that time, dirty)
+    conn_of = {}     # rtsp session name -> its command connection (named after the first session on it)
+    members = {}     # connection -> session names created on it
     for idx, (op, (res, groups, notes)) in enumerate(zip(ops, steps)):
         f = op.split(".")
         o = f[0]
         where = "event %d (%s): " % (idx + 1, op)
+        on_conn = None
+        if o in ("ap2", "ds2"):
+            # a further ANNOUNCE / DESCRIBE on the connection of session f[2]: same clauses as a first one for
+            # the new session f[3]; the event is an event of that whole connection
+            on_conn = conn_of.get("c" + f[2])
+            o = o[:2]
+            f = [o, f[1], f[3]] + f[4:]
         for n in notes:
             words.setdefault(n[1], []).append(n[0])
         # (a) at most one accepted input per stream at every instant
@@ -304,17 +465,44 @@ def oracle(c, out):
                 accepted[subject] = ok
                 if not ok:
                     gone.add(subject)
+                if o in ("ap", "ds"):
+                    cid = on_conn if on_conn is not None else subject
+                    conn_of[subject] = cid
+                    members.setdefault(cid, []).append(subject)
+                    if res == "r":
+                        # the command was refused and the connection ended: whatever session it carried has departed
+                        for m in members[cid]:
+                            if accepted.get(m):
+                                gone.add(m)
                 before = prev.get(subj_stream)
                 # (b) an input that arrives while another is accepted is refused
                 if o in INPUT_OPS and before and occupants(before) and ok:
                     return (False, where + "accepted although %s is the input of %s" % (occupants(before)[0], subj_stream))
                 if o in INPUT_OPS and ok and subject not in occupants(groups.get(subj_stream)):
                     return (False, where + "reported success but the session is not the stream's input")
+        elif o in ("rp2", "rs2"):
+            # a session publishes or plays once: a further command is refused and the connection ends, which is the
+            # departure of the session from its stream - whatever stream the refused command names
+            subject = "c" + f[2]
+            subj_stream = stream_of.get(subject)
+            if res == "a":
+                return (False, where + "a second publish / play command on the connection of %s was accepted" % subject)
+            if res == "r":
+                gone.add(subject)
         elif o == "gone":
             subject = "c" + f[1]
             subj_stream = stream_of.get(subject)
             if res == "-":
                 gone.add(subject)
+                # the end of an RTSP command connection is the departure of every session created on it
+                for m in members.get(conn_of.get(subject), []):
+                    if accepted.get(m):
+                        gone.add(m)
+        elif o == "pl":
+            if res == "r":
+                for m in members.get(conn_of.get("c" + f[1]), []):
+                    if accepted.get(m):
+                        gone.add(m)
         elif o == "kick":
             subject = f[2]
             subj_stream = "s" + f[1]
@@ -346,7 +534,7 @@ def oracle(c, out):
             for s, before in prev.items():
                 after = groups.get(s)
                 occ_b = occupants(before)
-                if not occ_b or subject in occ_b:
+                if not occ_b or subject in occ_b or set(members.get(conn_of.get(subject), [])) & set(occ_b):
                     continue
                 if after is None or after["slots"] != before["slots"] or after["pipe"] != before["pipe"] \
                         or after["spub"] != before["spub"] or after["spull"] != before["spull"]:
